@@ -109,6 +109,9 @@ var (
 	YieldInClose bool
 	OnCtor       func(slot int)
 	OnFault      func()
+	// AuxNilMask: bit slot set => multi-return constructors of that slot return a
+	// nil pointer as their second output
+	AuxNilMask int
 	// ClosePanicMask: bit slot set => Close of instances of that slot panics
 	ClosePanicMask int
 	OnClose      func(in *Inst)
